@@ -771,11 +771,12 @@ func (st *ex6State) oracle(v *vio) {
 					v.add("Y-fail-error", "%s: failed with %v, want the no-response error (nobody cancelled anything and no socket operation failed)", name, o.err)
 				}
 			} else {
-				if len(phase) != st.tries {
+				// one-sided: see X-fail-count
+				if len(phase) < st.tries {
 					v.add("Y-fail-count", "%s: gave up after %d transmission(s) of its last message, configured tries = %d", name, len(phase), st.tries)
 				}
-				if want := st.T * time.Duration((int64(1)<<uint(st.tries))-1); !st.stall && o.retT-phase[0].t != want {
-					v.add("Y-fail-duration", "%s: gave up %v after first transmitting its last message, want exactly %v (T=%v, tries=%d)", name, o.retT-phase[0].t, want, st.T, st.tries)
+				if want := st.T * time.Duration((int64(1)<<uint(st.tries))-1); !st.stall && o.retT-phase[0].t < want {
+					v.add("Y-fail-duration", "%s: gave up %v after first transmitting its last message, before the configured schedule ends at %v (T=%v, tries=%d)", name, o.retT-phase[0].t, want, st.T, st.tries)
 				}
 			}
 		}
